@@ -2,10 +2,10 @@ ID = "C06"
 LEVEL = "model_checking"
 MIRSYM = "C06"
 BOUNDS = ("histories of <= 5 (quick) / 7 (thorough) steps over {subscribe+accept, sink clone, sink drop, own unsubscribe, connection close}, <= 2 / 3 subscriptions with <= 2 / 3 sinks "
-          "each on one connection (a second connection only issues foreign unsubscribes), cap symbolic in 0..3; sub ids / connection ids symbolic and distinct")
+          "each on one connection (a second connection only issues foreign unsubscribes), cap symbolic in 0..3; sub ids / connection ids symbolic and distinct; connection ids of consecutive accepts / service-builder builds; the closing task's captures and calls; the cap through every builder step")
 EXPLANATION = ("The real MIR of BoundedSubscriptions::{new,acquire}, PendingSubscriptionSink::accept, SubscriptionSink::{clone,is_closed,drop}, and the unsubscribe callback is executed "
                "symbolically step by step over a world built by the driver (subscriber table as association list, semaphore as counter, Arc reference counts, Rust drop glue). After every "
-               "step z3 decides the bookkeeping invariants against the reference state the property prescribes; provenance obligations tie the cap and the permit to the configuration.")
+               "step z3 decides the bookkeeping invariants against the reference state the property prescribes; provenance obligations tie the cap and the permit to the configuration. Connections get distinct ids on both assembly routes and the closing task is no second owner of the subscription.")
 TRUSTED = ["rustc MIR dump", "z3 / cvc5", "tokio Semaphore / mpsc / oneshot semantics as modelled", "Rust drop order as modelled (Drop::drop, then fields; Arc releases contents with the last handle)"]
 OUTSIDE = ["task interleavings inside one step (each callback runs to completion under the table's mutex)", "the handler's own future being aborted on connection close (only its sinks' drops are modelled)",
            "more than one connection holding subscriptions at once (keys carry the connection id; only foreign unsubscribes are issued)", "PendingSubscriptionSink dropped without accept/reject"]
